@@ -13,7 +13,6 @@ import (
 	"fmt"
 	"os"
 	"os/exec"
-	"runtime/debug"
 	"syscall"
 	"strings"
 	"sync"
@@ -79,7 +78,6 @@ func workerMain() {
 		lim.Cur = workerAS
 		syscall.Setrlimit(syscall.RLIMIT_AS, &lim)
 	}
-	debug.SetGCPercent(400)
 	in := bufio.NewReaderSize(os.Stdin, 1<<20)
 	out := bufio.NewWriterSize(os.Stdout, 1<<16)
 	go func() {
